@@ -562,7 +562,8 @@ def rebuilding(check, prog):
         if ok:
             full = intern(('idx', itm[0], num(0)))
             parts = intern(('call', ('attr', full, 'split'), (('const', ':'), num(1)), ()))
-            conds = [(t, p) for t, p in e['cond'] if t[0] != 'loop-iter']
+            from .common import canon_cond
+            conds = [(t, p) for t, p in canon_cond(e['cond']) if t[0] != 'loop-iter']
             ok = base[2][2] == (('idx', parts, num(0)),) and \
                 key == ('idx', parts, num(1)) and val == ('idx', itm[0], num(1)) and \
                 conds == [(('cmp', '==', ('call', 'len', (parts,), ()), num(2)), True)]
